@@ -1,10 +1,12 @@
-(* C08 - property theorems only (proofs in C08/CallLemmas.v, C08/Refine.v, C08/Witness.v).
+(* C08 - property theorems only (proofs in C08/CallLemmas.v, C08/Refine.v, C08/Witness.v; for the
+   calls of every kind - CbCall, C08/Kinds.v - in C08/KindsLemmas.v, C08/KindsWitness.v).
    Ref  = the shared reference interpreter [Lang.Sem.eval/exec] (lexical lookup, private frames).
    Mech = the implementation's lookup and call protocol [C08.Frames.meval/mexec] (find_variable walks
           every activation's scope, arguments are evaluated inside the callee's scope, statics last). *)
 From Coq Require Import List ZArith Bool Arith.
 From Cb Require Import Lang.Syntax Lang.Sem Lang.Respect Lang.Theorems Lang.Print
-                       C08.CallLemmas C08.Frames C08.Model C08.Refine C08.Witness.
+                       C08.CallLemmas C08.Frames C08.Model C08.Refine C08.Witness
+                       C08.Kinds C08.KindsLemmas C08.KindsWitness.
 Import ListNotations.
 Local Open Scope Z_scope.
 
@@ -254,3 +256,109 @@ Theorem static_persists_refuted : exists p,
   run 60 p = ([OInt 7; ONl; OInt 8; ONl], Finished) /\ mech_run false 60 p = ([], Failed EUnbound).
 Proof. exists w_static_arg. split; [exact w_static_arg_not_ok|]. split; apply w_static_arg_runs. Qed.
 Print Assumptions static_persists_refuted.
+
+(* ================================================================== CbCall: results of every kind, every exit *)
+
+(* The code's restore statements (6466, 6771, 6911, 7023) form a sound policy. *)
+Theorem kinds_code_policy_sound : policy_ok code_policy = true.
+Proof. reflexivity. Qed.
+Print Assumptions kinds_code_policy_sound.
+
+(* Whatever expression is evaluated - a call whose result is a long, int, bool, string, float, double,
+   quad, struct, array, reference or nothing, leaving through the end of the body, a `return`, a
+   re-thrown return or a runtime error, nested to any depth - the activation stack and the
+   current-function register afterwards are exactly those before (Ref and Mech, every sound policy). *)
+Theorem kinds_call_restores_caller : forall mech pol funcs n e s,
+  policy_ok pol = true ->
+  kframes (snd (keval mech pol funcs n e s)) = kframes s /\ kcur (snd (keval mech pol funcs n e s)) = kcur s.
+Proof.
+  intros mech pol funcs n e s H. destruct (discipline mech pol H funcs n) as [He _].
+  destruct (He e s) as [H1 H2]. split; assumption.
+Qed.
+Print Assumptions kinds_call_restores_caller.
+
+(* A statement changes the variables of the running activation only: the frames below, the function of
+   the running frame and the register stay. *)
+Theorem kinds_statement_keeps_activation : forall mech pol funcs n st s,
+  policy_ok pol = true ->
+  let s' := snd (kexec mech pol funcs n st s) in
+  kcur s' = kcur s /\ top_fn (kframes s') = top_fn (kframes s) /\ tl (kframes s') = tl (kframes s).
+Proof.
+  intros mech pol funcs n st s H. destruct (discipline mech pol H funcs n) as [_ Hs]. exact (Hs st s).
+Qed.
+Print Assumptions kinds_statement_keeps_activation.
+
+(* Looking a static up under the register (the implementation) is looking it up under the function of
+   the running activation (the property): Mech = Ref on every program, for every sound policy. *)
+Theorem kinds_register_equals_stack : forall pol fuel p,
+  policy_ok pol = true -> k_run true pol fuel p = kref_run fuel p.
+Proof. exact (fun pol fuel p H => mech_refines_ref pol fuel p H). Qed.
+Print Assumptions kinds_register_equals_stack.
+
+Theorem kinds_mech_equals_ref : forall fuel p, kmech_run fuel p = kref_run fuel p.
+Proof. exact (fun fuel p => mech_refines_ref code_policy fuel p eq_refl). Qed.
+Print Assumptions kinds_mech_equals_ref.
+
+(* ... and ONLY for the sound ones: every policy that forgets a restore on some exit is separated from
+   Ref by one program (w_exits: a void, a long, a string and a failing callee). *)
+Theorem kinds_restore_policy_exact : forall pol,
+  (forall fuel p, k_run true pol fuel p = kref_run fuel p) <-> policy_ok pol = true.
+Proof. exact restore_policy_exact_l. Qed.
+Print Assumptions kinds_restore_policy_exact.
+
+(* The filed change C08-1 as a policy: the caller of a string function goes on under the callee's
+   name and counts in the callee's static (102, 104 instead of 2, 4). *)
+Theorem kinds_seeded_change_refuted : exists p,
+  policy_ok seeded_policy = false /  kref_run 40 p = ([KOVal KStr 0; KOSp; KOVal KLong 2; KONl; KOVal KInt 2; KONl;
+                    KOVal KStr 0; KOSp; KOVal KLong 4; KONl; KOVal KInt 4; KONl], Finished) /  k_run true seeded_policy 40 p =
+                   ([KOVal KStr 0; KOSp; KOVal KLong 102; KONl; KOVal KInt 102; KONl;
+                     KOVal KStr 0; KOSp; KOVal KLong 104; KONl; KOVal KInt 104; KONl], Finished).
+Proof. exists w_seeded. split; [reflexivity|]. split; [exact w_seeded_ref | exact w_seeded_bad]. Qed.
+Print Assumptions kinds_seeded_change_refuted.
+
+(* A store and a static declaration change the statics of the running function and of no other. *)
+Theorem kinds_statics_private : forall mech x v k s g,
+  g <> key mech s ->
+  kstatics g (snd (k_write mech x v s)) = kstatics g s /  kstatics g (snd (k_static_declare mech k x v s)) = kstatics g s.
+Proof.
+  intros. split; [apply k_write_statics_private | apply k_static_declare_private]; assumption.
+Qed.
+Print Assumptions kinds_statics_private.
+
+(* Once known, a static stays known over every expression and statement (calls of every kind). *)
+Theorem kinds_statics_persist : forall mech pol funcs n,
+  (forall e s f x, assoc x (kstatics f s) <> None -> assoc x (kstatics f (snd (keval mech pol funcs n e s))) <> None) /  (forall st s f x, assoc x (kstatics f s) <> None -> assoc x (kstatics f (snd (kexec mech pol funcs n st s))) <> None).
+Proof.
+  intros mech pol funcs n. destruct (statics_persist mech pol funcs n) as [He Hs].
+  split; intros; [apply (He e s) | apply (Hs st s)]; assumption.
+Qed.
+Print Assumptions kinds_statics_persist.
+
+(* A static is initialised once: the declaration of a known static is a no-op. *)
+Theorem kinds_static_init_once : forall mech pol funcs n kd x e s,
+  assoc x (kstatics (key mech s) s) <> None ->
+  kexec mech pol funcs (S n) (KDecl true kd x e) s = (Val tt, s).
+Proof. exact kstatic_decl_once. Qed.
+Print Assumptions kinds_static_init_once.
+
+(* The value given to `return` is the value of the call, for every result kind and both return exits
+   (an `int` result is range checked like a store). *)
+Theorem kinds_return_value_unchanged : forall pol fd inner s v s2,
+  inner (push_frame (kfname fd) (with_cur (kfname fd) s)) = (Ret (Some v), s2) ->
+  (kfret fd <> KInt \/ kcoerce KInt v = Val v) ->
+  fst (k_call pol fd inner s) = Val v.
+Proof.
+  intros pol fd inner s v s2 H [Hk|Hk]; apply (call_value pol fd inner s v s2 H).
+  - apply kcoerce_not_int; exact Hk.
+  - destruct (kfret fd); try reflexivity; exact Hk.
+Qed.
+Print Assumptions kinds_return_value_unchanged.
+
+(* Positional binding for parameters of every kind: the body starts with parameter i := value i. *)
+Theorem kinds_args_positional : forall ps vs s f r,
+  kframes s = f :: r -> List.length vs = List.length ps ->
+  (forall p v, In (p, v) (combine ps vs) -> kcoerce (kpk p) v = Val v) ->
+  kbind_params ps vs s =
+  (Val tt, with_frames ({| kfn := kfn f; kvars := rev (bound_vars ps vs) ++ kvars f |} :: r) s).
+Proof. exact bind_params_positional. Qed.
+Print Assumptions kinds_args_positional.
